@@ -208,3 +208,47 @@ func VH_C18_FaultOnOpen() {
 	}
 	vReach("C18.open.end")
 }
+
+// The failed connection's own OnClose handler writes a farewell to it (gnet flushes data written in OnClose) while the
+// socket is broken in both directions: the second failure, raised inside the callback, must not close the connection
+// a second time, must not disturb the registry count and must not reach the bystander.
+//
+//verif: mode=int unwind=6
+func VH_C18_WriteInOnCloseOfFailedConn() {
+	et := vNondetBool("et")
+	w := vNewWorld(et, 1<<20)
+	c := w.vOpenConnX(vConnFD, "c", false, false, true)
+	c2 := w.vOpenConn(vConn2FD, "c2", false, false)
+	by := vSnap(c2)
+	s := &vk.S[vConnFD]
+	vk.MaxReads, vk.MaxWrites = 1, 3
+	k := vPick("errno", 3)
+	errnos := [3]unix.Errno{unix.ECONNRESET, unix.EPIPE, unix.ETIMEDOUT}
+	s.ReadErr = errnos[k]
+	s.WriteErr = unix.EPIPE
+	bye := vNondetBytes("bye", 3)
+	how := vPick("farewell", 3)
+	said := false
+	w.h.onClose = func(cc *conn, err error) Action {
+		if said { // (says it once: keeps a re-entered OnClose from recursing without bound)
+			return None
+		}
+		said = true
+		switch how {
+		case 0:
+			_, _ = cc.Write(bye)
+		case 1:
+			_, _ = cc.Writev([][]byte{bye})
+		case 2:
+			_ = cc.Flush()
+		}
+		return None
+	}
+	err := c.processIO(vConnFD, 0x1, 0)
+	g := w.h.g(c)
+	vAssert("C18.farewell.engine_keeps_running", vNotSentinel(err))
+	vAssert("C18.farewell.closed_exactly_once_with_error", g.closes == 1 && !g.closeErrNil && w.vClosedOK(c, vConnFD))
+	vAssert("C18.farewell.count_is_opened_minus_closed", w.el.countConn() == 1)
+	vAssert("C18.farewell.bystander_untouched", w.vUntouched(by))
+	vReach("C18.farewell.end")
+}
